@@ -93,3 +93,39 @@ func Harness_C04_age() {
 	verifAssert("C04.age-within-1s", int64(age) >= before-obtained-1 && int64(age) <= after-obtained+1)
 	verifReach("C04.age.end")
 }
+
+// A request that has to wait for the entry lock (held meanwhile by a slow Cacheable/saveToStore or a
+// restore from the store): waiting takes an arbitrary time, modelled by a clock that advances by an
+// arbitrary amount at the moment the lock is obtained (verifOnLock).  The hit decision is made with
+// the lock held, i.e. not before that moment: a hit is allowed only if the entry is still within its
+// lifetime then, and the Age is not smaller than the time elapsed until then.  (A clock value sampled
+// before waiting for the lock is stale when the decision is made.)
+func Harness_C04_hit_after_lock_wait() {
+	hc := NewHTTPCache()
+	T := verifInt("T")
+	verifAssume(T >= 1 && T < 1<<40)
+	obtained := verifInt64("obtained")
+	verifAssume(obtained >= 1 && obtained < 1<<61)
+	resp := &HTTPResponse{}
+	hc.status = StatusHit
+	hc.response = resp
+	hc.createdAt = obtained
+	hc.expiredAt = obtained + int64(T)
+	ghostClock = obtained
+	lockedAt := int64(0)
+	verifOnLock(hc.mu, func() {
+		wait := verifInt64("lockWait")
+		verifAssume(wait >= 0 && wait < 1<<60)
+		ghostClock += wait
+		lockedAt = ghostClock
+	})
+	status, got, age := hc.GetWithAge()
+	if status == StatusHit {
+		verifReach("C04.lockwait.hit")
+		verifAssert("C04.lockwait.hit-only-if-fresh-when-the-lock-was-obtained", lockedAt-obtained <= int64(T))
+		verifAssert("C04.lockwait.age-covers-the-wait", int64(age) >= lockedAt-obtained && got == resp)
+	} else {
+		verifReach("C04.lockwait.expired")
+		verifAssert("C04.lockwait.expired-goes-upstream", status == StatusFetching)
+	}
+}
